@@ -367,6 +367,10 @@ def build_cases(tier="quick"):
     # hash registry handed to every test/path: ownership obligations proved in the C09 and C08 packs
     from contracts import c08, c09
 
+    from contracts import c15
+
+    for c in c15.frontier_cases():
+        ref.append(Case(f"{PROP}/__main__._compute_frontier#shared-call-sequence", c.case, c.harness, replay=c.replay, sources=c.sources))
     for c in c09.callback_cases():
         ref.append(Case(f"{PROP}/sevm.SEVM.call#callback-ownership", c.case, c.harness, replay=c.replay, sources=c.sources))
     for c in c08.offsetmap_cases():
